@@ -47,8 +47,12 @@ def gen_prog(rng, depth, nuniq, fresh):
     if k == "debug":
         return ("debug", rng.random() < 0.5, gen_prog(rng, depth - 1, nuniq, fresh))
     mode = rng.random()
-    if mode < 0.7:
+    if mode < 0.55:
         new = [fresh() for _ in range(nuniq)]
+    elif mode < 0.7:
+        # partial substitution: some slots get a fresh tensor, the others the object that is there now (for an nn.Module
+        # that is the registered Parameter itself; seeded defect C10/3)
+        new = ("mixed", [fresh() if rng.random() < 0.5 else None for _ in range(nuniq)])
     elif mode < 0.8:
         new = "current"
     elif mode < 0.9:
@@ -84,6 +88,8 @@ def run_prog(xt, pf, getstore, p, crash, counter, trace, idof, keep):
             new = list(pf.objparams())
         elif new == "current-prefix":
             new = list(pf.objparams())[:-1]
+        elif isinstance(new, tuple):
+            new = [f if f is not None else c for f, c in zip(new[1], list(pf.objparams()))]
         # what "current" meant at the moment this block was entered (the model gets the same list)
         RESOLVED.append((id(p), [idof[id(t)] for t in new]))
         with pf.useobjparams(new):
@@ -206,6 +212,8 @@ def program_cases(ctx, cases, meta):
             del RESOLVED[:]
 
             def resolve(new, node=None):
+                if isinstance(new, tuple):
+                    return resolved.get(id(node), [idmap[id(f)] if f is not None else c for f, c in zip(new[1], cur0)])
                 if isinstance(new, str):
                     # blocks that were not reached in this run are not reached by the model either
                     return resolved.get(id(node), cur0 if new == "current" else cur0[:-1])
@@ -237,7 +245,8 @@ def prog_str(p):
         return "disable{%s}" % prog_str(p[1])
     if k == "debug":
         return "debug(%s){%s}" % (p[1], prog_str(p[2]))
-    new = p[1] if isinstance(p[1], str) else "new%d" % len(p[1])
+    new = p[1] if isinstance(p[1], str) else ("mixed" + "".join("n" if f is not None else "c" for f in p[1][1]) if isinstance(p[1], tuple)
+                                              else "new%d" % len(p[1]))
     return "use(%s){%s}" % (new, prog_str(p[2]))
 
 
@@ -376,6 +385,38 @@ def linop_crash_oracle(ctx):
                     op.m = mat
                     break
     crash[0] = None
+    # an operator that holds the same tensor under two names (the restore must go through the de-duplicated list, like the
+    # substitution did; seeded defect C10/2): every attribute must be the same object after forward and after backward
+    class Alias(xt.LinearOperator):
+        def __init__(self, d, u):
+            super().__init__(shape=(d.shape[0], d.shape[0]), is_hermitian=False, dtype=d.dtype, device=d.device)
+            self.shift, self.d, self.u, self.v = u, d, u, d * 1.0
+
+        def _mv(self, x):
+            return self.d * x + self.u * (self.v * x).sum(-1, keepdim=True) + 0.1 * self.shift * x
+
+        def _rmv(self, x):
+            return self.d * x + self.v * (self.u * x).sum(-1, keepdim=True) + 0.1 * self.shift * x
+
+        def _getparamnames(self, prefix=""):
+            return [prefix + "shift", prefix + "d", prefix + "u", prefix + "v"]
+    dvec = (torch.rand(5, dtype=DT, generator=g) + 3.0).requires_grad_()
+    uvec = (0.2 * torch.randn(5, dtype=DT, generator=g)).requires_grad_()
+    Bv = torch.randn(5, 2, dtype=DT, generator=g)
+    for meth in ("bicgstab", "cg", "custom_exactsolve", "broyden1"):
+        op = Alias(dvec, uvec)
+        before = {k: id(getattr(op, k)) for k in ("shift", "d", "u", "v")}
+        with warnings.catch_warnings():
+            warnings.simplefilter("ignore")
+            x = solve(op, Bv, method=meth)
+            after_f = {k: id(getattr(op, k)) for k in before}
+            torch.autograd.grad(x.sum(), (dvec, uvec), allow_unused=True)
+        after_b = {k: id(getattr(op, k)) for k in before}
+        ctx.count(("alias-linop", meth), nontrivial=True)
+        if after_f != before or after_b != before:
+            ctx.fail("oracle", "linop:aliased-parameters-not-restored", {"method": meth},
+                     {"changed_after_forward": [k for k in before if after_f[k] != before[k]],
+                      "changed_after_backward": [k for k in before if after_b[k] != before[k]]}, "every attribute is the same tensor object")
 
 
 def check(ctx):
